@@ -186,6 +186,20 @@ def check_case(ctx, case):
                     ctx.violation("poisson_" + name + ":simulated_event_not_in_inverse_cdf_bin", {"sim": i, "got": float(td[i]), "want": want, "u": U[i][:6], "bins": B[i][:6]})
                     break
             quantile_ok("poisson_" + name, o.value)
+            # one more simulation whose injected numbers reproduce the observed catalog bin for bin: the simulated statistic is the
+            # same function of the same counts and forecast as the observed one - equal bit for bit, a tie that counts (quantile 1)
+            obins = {"CL": [k * S.nm + m for k, m in S.obs], "S": [k for k, m in S.obs], "M": [m for k, m in S.obs]}[name]
+            Fw = G.cdf_bounds(weights)
+            if all(Fw[b + 1] > Fw[b] for b in obins):
+                us = [make_u(Fw, b, "in", 0.5, dyadic)[0] for b in obins]
+                if all(u is not None for u in us):
+                    ctx.count("simulations_reproducing_the_observation")
+                    oc = call(fn, fore, S.catalog(region), num_simulations=1, random_numbers=numpy.array([us], dtype=float))
+                    r = ctx.normalize("poisson_" + name + ":copy", lambda: (float(oc.value.test_distribution[0]), float(oc.value.observed_statistic), float(oc.value.quantile))) if oc.ok else None
+                    if not oc.ok:
+                        ctx.unexpected(oc, "poisson_" + name + "_copy_of_observation")
+                    elif r is not None and (r[0] != r[1] or r[2] != 1.0) and not (math.isnan(r[0]) and math.isnan(r[1])):
+                        ctx.violation("poisson_" + name + ":simulation_identical_to_observation_gets_another_statistic", {"simulated": r[0], "observed": r[1], "quantile": r[2]})
     # ------------------------------------------------ (a) injected path, binary / Brier
     act_cells = sorted(set(k for k, m in S.obs))
     act_bins = sorted(set(S.obs))
